@@ -33,16 +33,21 @@ def main():
                 print(f'{seed}: patch does not apply: {r.stderr.strip()}'); continue
             want = allprops if props in (None, 'all') else props.split(',')
             fired = {}
-            for p in want:
-                env = dict(os.environ, XZVERIFY_REPO=wt, XZVERIFY_HOME=home)
-                r = sh('/verif/bin/xzverify', 'check', p, env=env)
-                if r.returncode != 0:
-                    rules = sorted(set(re.findall(r'^(?:FAIL|UNDECIDED) (\S+) (\S+)', r.stdout, re.M)))
-                    fired[p] = [f'{a} {b}' for a, b in rules][:6]
+            from concurrent.futures import ThreadPoolExecutor
+            def one(p):
+                h = os.path.join(base, 'home-' + p); os.makedirs(h + '/evidence', exist_ok=True)
+                shutil.copy('/verif/known_findings.txt', h)
+                return p, sh('/verif/bin/xzverify', 'check', p, env=dict(os.environ, XZVERIFY_REPO=wt, XZVERIFY_HOME=h))
+            with ThreadPoolExecutor(9) as ex:
+                for p, r in ex.map(one, want):
+                    if r.returncode != 0:
+                        rules = sorted(set(re.findall(r'^(?:FAIL|UNDECIDED) (\S+) (\S+)', r.stdout, re.M)))
+                        fired[p] = [f'{a} {b}' for a, b in rules][:6]
             meta = {}
             try: meta = json.load(open(os.path.join(seed, 'meta.json')))
             except Exception: pass
-            tag = 'CAUGHT' if fired else 'MISSED'
+            own = meta.get('property','?')
+            tag = ('CAUGHT' if own in fired else 'OTHER ') if fired else 'MISSED'
             print(f'{tag} {seed} [{meta.get("property","?")}] {meta.get("summary","")[:110]}')
             for p, rs in fired.items():
                 print(f'    {p}: ' + ' | '.join(rs))
